@@ -227,7 +227,8 @@ class FFTMTF:
                 limit reference line. Defaults to False.
         """
         dx = self._get_mtf_units()
-        freq = np.arange(self.grid_size//2) * dx
+        # one frequency per sample of the curves (grid_size may be odd)
+        freq = np.arange(self.grid_size - self.grid_size//2) * dx
 
         _, ax = plt.subplots(figsize=figsize)
 
